@@ -113,6 +113,12 @@ def struct_basic(g, n_cp=None, shape=None, fields=None, rich=True):
                 t.f["hint"] = "{}"
     for i in range(nf):
         f = Field(f"f{i}" if shape == "named" else None, r.choice(LEAF_TYPES))
+        if named_cp is not None and len(cps) > 1 and g.chance(0.2):
+            # for the field-named counterpart the member is a ghost (needs no name); the expression-only instruction serves the positional ones
+            f.attrs.append(Instr(r.choice(["map", "into", "from"]), "map", container=None, member=None, action=g.expr(at=False), braced=True))
+            f.attrs.append(Instr("ghost", "ghost", container=named_cp, action=f"k{g.mark()}()", braced=True))
+            it.fields.append(f)
+            continue
         if named_cp is not None:
             all_fal = all(t.f.get("err") for t in it.attrs if t.kind == "trait" and t.f["ty"] == named_cp)
             nm_ = "try_map" if (all_fal and g.chance(0.5)) else "map"
@@ -361,7 +367,7 @@ def struct_parents(g):
                             xs.append(f"x{k}")
                     if len(xs) == 1 and not xs[0].startswith("["):
                         xs.append(f"x{g.mark()}")  # a single bare ident would be read as a dedicated type
-                    return ", ".join(xs)
+                    return ", ".join(xs) + ("," if g.chance(0.15) else "")      # a list may end with a comma
                 c = (into_only if (into_only and g.chance(0.6)) else r.choice(cps)) if g.chance(0.25 if into_only is None else 0.6) else None
                 args = plist(0)
                 from_cps = {t.f["ty"] for t in it.attrs if t.kind == "trait" and any(k.startswith("from") for k in kinds_of(t.name))}
